@@ -80,6 +80,13 @@ impl FlagConstructor for FlagB {
         MetricFlags::upcast(&OPTS[2])
     }
 }
+/// a constructor that contributes no flags (e.g. a run-time toggle that is off)
+struct FlagNone;
+impl FlagConstructor for FlagNone {
+    fn construct() -> MetricFlags<'static> {
+        MetricFlags::empty()
+    }
+}
 fn flag_c() -> MetricFlags<'static> {
     MetricFlags::upcast(&OPTS[4])
 }
@@ -569,6 +576,7 @@ fn apply_value_wrapper(w: &J, pos: usize, inner: DynV) -> DynV {
         "Flag" => match w["f"].as_str().unwrap() {
             "A" => layer(ForceFlag::<_, FlagA>::from(e)),
             "B" => layer(ForceFlag::<_, FlagB>::from(e)),
+            "0" => layer(ForceFlag::<_, FlagNone>::from(e)),
             f => panic!("unknown flag {f}"),
         },
         "Some" => layer(Some(e)),
@@ -812,6 +820,7 @@ enum StreamKind {
     MergeGlobals(ErasedE),
     GlobalDims(Vec<(String, String)>, HashSet<CowStr>),
     FlagA,
+    FlagNone,
     MergeGlobalsFmt(ErasedE),
     GlobalDimsFmt(Vec<(String, String)>, HashSet<CowStr>),
 }
@@ -838,6 +847,9 @@ impl StreamL {
             }
             StreamKind::FlagA => {
                 ForceFlag::<_, FlagA>::from(cap).next(&self.inner).unwrap();
+            }
+            StreamKind::FlagNone => {
+                ForceFlag::<_, FlagNone>::from(cap).next(&self.inner).unwrap();
             }
             StreamKind::MergeGlobalsFmt(g) => {
                 CaptureFmt(cap).merge_globals(g.clone()).format(&self.inner, &mut std::io::sink()).unwrap();
@@ -998,6 +1010,7 @@ fn apply_entry_wrapper(w: &J, pos: usize, e: ErasedE, g: &ErasedE) -> ErasedE {
         },
         "RootFlag" => match w["f"].as_str().unwrap() {
             "A" => layer_e(RootEntry::new(ForceFlag::<_, FlagA>::from(Infl(e)))),
+            "0" => layer_e(RootEntry::new(ForceFlag::<_, FlagNone>::from(Infl(e)))),
             _ => layer_e(RootEntry::new(ForceFlag::<_, FlagB>::from(Infl(e)))),
         },
         "Some" => layer_e(Some(e)),
@@ -1034,9 +1047,13 @@ fn apply_entry_wrapper(w: &J, pos: usize, e: ErasedE, g: &ErasedE) -> ErasedE {
         },
         "EFlag" => match w["f"].as_str().unwrap() {
             "A" => layer_e(ForceFlag::<_, FlagA>::from(e)),
+            "0" => layer_e(ForceFlag::<_, FlagNone>::from(e)),
             _ => layer_e(ForceFlag::<_, FlagB>::from(e)),
         },
-        "FlagStream" => ErasedE(Arc::new(StreamL { inner: e, kind: StreamKind::FlagA })),
+        "FlagStream" => {
+            let kind = if w["f"].as_str() == Some("0") { StreamKind::FlagNone } else { StreamKind::FlagA };
+            ErasedE(Arc::new(StreamL { inner: e, kind }))
+        }
         other => panic!("unknown entry wrapper {other}"),
     }
 }
@@ -1199,6 +1216,10 @@ fn run_history(w: &J, results: &[String], entries: &[(HistE, usize)], g: &Erased
             let mut s = ScriptFormat(inner).merge_globals(g.clone());
             drive(&script, entries, |e| s.format(e, sink))
         }
+        ("FlagStream", _) if w["f"].as_str() == Some("0") => {
+            let mut s = ForceFlag::<_, FlagNone>::from(inner);
+            drive(&script, entries, |e| s.next(e))
+        }
         ("FlagStream", _) => {
             let mut s = ForceFlag::<_, FlagA>::from(inner);
             drive(&script, entries, |e| s.next(e))
@@ -1228,6 +1249,25 @@ fn cmd_hist(a: &HashMap<String, String>) {
             });
         }
         serde_json::to_writer(&mut out, &json!({"id": b["id"], "runs": runs})).unwrap();
+        out.write_all(b"\n").unwrap();
+    }
+    out.flush().unwrap();
+}
+
+/// MetricFlags::try_merge itself on pairs of flag sets (empty set = MetricFlags::empty())
+fn cmd_flagmerge(a: &HashMap<String, String>) {
+    let behaviours = util::read_ndjson(util::arg_str(a, "behaviours", ""));
+    let mut out = std::io::BufWriter::new(std::fs::File::create(util::arg_str(a, "out", "")).unwrap());
+    let bits = |v: &J| -> usize { strs(v).iter().map(|f| match f.as_str() { "A" => 1, "B" => 2, _ => 4 }).sum() };
+    let flags = |b: usize| if b == 0 { MetricFlags::empty() } else { MetricFlags::upcast(&OPTS[b]) };
+    for b in behaviours {
+        let (x, y) = (bits(&b["x"]), bits(&b["y"]));
+        let r = util::catch(|| flags_json(flags(x).try_merge(flags(y))));
+        let j = match r {
+            Ok(f) => json!({"id": b["id"], "r": f}),
+            Err(p) => json!({"id": b["id"], "panic": p}),
+        };
+        serde_json::to_writer(&mut out, &j).unwrap();
         out.write_all(b"\n").unwrap();
     }
     out.flush().unwrap();
@@ -1684,6 +1724,7 @@ fn main() {
         "attrs" => cmd_attrs(&a),
         "collect" => cmd_collect(&a),
         "hist" => cmd_hist(&a),
+        "flagmerge" => cmd_flagmerge(&a),
         _ => {
             eprintln!("usage: val values|entries|hist|pairs|collect|attrs ...");
             std::process::exit(2);
